@@ -427,7 +427,11 @@ var c19Layouts = map[uint8][]c19Layout{
 	32: {{16, 8, 8, 8, 0, 8}, {0, 8, 8, 8, 16, 8}},
 }
 
-func c19GenFb(t *rapid.T, allowEmptyGrid bool) c19FbCase {
+// c19GenFb draws a framebuffer case. One case in twenty asks for a grid
+// without cells (framebuffer narrower than a glyph, or fewer scanlines below
+// the logo than a glyph is high); while finding F-C19c is open those are
+// constructed around and counted through excluded.
+func c19GenFb(t *rapid.T, allowEmptyGrid bool, excluded func()) c19FbCase {
 	var c c19FbCase
 	c.Bpp = rapid.SampledFrom([]uint8{8, 15, 16, 24, 32}).Draw(t, "bpp")
 	if ls := c19Layouts[c.Bpp]; ls != nil {
@@ -442,8 +446,12 @@ func c19GenFb(t *rapid.T, allowEmptyGrid bool) c19FbCase {
 	}
 	c.FontSeed = rapid.Uint64().Draw(t, "font-seed")
 	lo := 1
-	if allowEmptyGrid && rapid.IntRange(0, 19).Draw(t, "degenerate") == 0 {
-		lo = 0
+	if rapid.IntRange(0, 19).Draw(t, "degenerate") == 0 {
+		if allowEmptyGrid {
+			lo = 0
+		} else {
+			excluded()
+		}
 	}
 	cells := func(label string) uint32 {
 		if rapid.IntRange(0, 9).Draw(t, label+"-class") < 7 {
@@ -545,7 +553,7 @@ func TestVerifC19Fb(t *testing.T) {
 	defer vlib.Flush()
 	allowEmpty := !vlib.OpenFinding("F-C19c")
 	rapid.Check(t, func(t *rapid.T) {
-		c := c19GenFb(t, allowEmpty)
+		c := c19GenFb(t, allowEmpty, func() { st.Exclude("F-C19c: grid without cells") })
 		fail, rs := c19FbRun(c)
 		nt, labels := c19FbLabels(c, rs)
 		st.Case(c, nt, labels...)
